@@ -29,6 +29,9 @@ type c15Node struct {
 	// TwoPods: the node holds two daemon pods of the ExtendedDaemonSet (a crash-looping pod next to its successor);
 	// the restarts belong to the one that is listed first, the second one never restarted
 	TwoPods bool
+	// Foreign: restart count of a pod of a namesake ExtendedDaemonSet (same name, another namespace) on this node;
+	// it must not influence the choice (0 = no such pod)
+	Foreign int
 }
 
 type c15Case struct {
@@ -45,7 +48,7 @@ type c15Case struct {
 func (k c15Case) String() string {
 	var ns []string
 	for _, n := range k.Nodes {
-		ns = append(ns, fmt.Sprintf("%s{zone=%s rack=%s tier=%s tainted=%v restarts=%d twoPods=%v}", n.Name, n.Zone, n.Rack, n.Tier, n.Tainted, n.Restarts, n.TwoPods))
+		ns = append(ns, fmt.Sprintf("%s{zone=%s rack=%s tier=%s tainted=%v restarts=%d twoPods=%v namesakeRestarts=%d}", n.Name, n.Zone, n.Rack, n.Tier, n.Tainted, n.Restarts, n.TwoPods, n.Foreign))
 	}
 	return fmt.Sprintf("replicas=%s selector=%v keys=%v newTemplate{tolerates=%v selector=%v} prev=%v nodes=[%s]", k.Replicas, k.Selector, k.Keys, k.BTolerates, k.BSelector, k.Prev, strings.Join(ns, " "))
 }
@@ -73,6 +76,7 @@ func c15Draw(rt *rapid.T) c15Case {
 			Tainted:  rapid.IntRange(0, 4).Draw(rt, name+"-tainted") == 0,
 			Restarts: rapid.SampledFrom([]int{0, 0, 0, 1, 2, 5}).Draw(rt, name+"-restarts"),
 			TwoPods:  rapid.IntRange(0, 4).Draw(rt, name+"-twoPods") == 0,
+			Foreign:  rapid.SampledFrom([]int{0, 0, 0, 0, 3, 9}).Draw(rt, name+"-foreignRestarts"),
 		})
 	}
 	k.Replicas = rapid.SampledFrom([]string{"1", "2", "3", "4", "6", "20%", "30%", "50%", "100%"}).Draw(rt, "replicas")
@@ -138,6 +142,12 @@ func runC15(k c15Case) (vs []mon.V, classes []string, err error) {
 		}
 		if n.TwoPods {
 			p.addPod(n.Name, 'A', PSAvailable, time.Minute) // named (and listed) after the first one
+		}
+		if n.Foreign > 0 {
+			fp := &corev1.Pod{ObjectMeta: metav1.ObjectMeta{Namespace: "ns2", Name: "foo-namesake-" + n.Name, Labels: map[string]string{oracle.LabelEDSName: "foo", oracle.LabelRSName: "foo-zzzzz"}},
+				Spec:   corev1.PodSpec{NodeName: n.Name, Containers: []corev1.Container{{Name: "agent", Image: "img:A"}}},
+				Status: corev1.PodStatus{Phase: corev1.PodRunning, ContainerStatuses: []corev1.ContainerStatus{{Name: "agent", RestartCount: int32(n.Foreign), Ready: true}}}}
+			c.Add(fp)
 		}
 	}
 	nn := int32(len(k.Nodes))
